@@ -73,7 +73,7 @@ var documented = map[int]bool{0: true, 1: true, 2: true, 3: true, 4: true, 5: tr
 func main() {
 	seed := flag.Int64("seed", 1, "random seed (all randomness derives from it)")
 	n := flag.Int("n", 500, "number of runs")
-	pigeon := flag.String("pigeon", "/verif/build/bin/pigeon-verif", "pigeon binary built with -tags verif")
+	pigeon := flag.String("pigeon", "/verif/build/bin/pigeon", "pigeon binary built with -tags verif")
 	includeKnown := flag.Bool("include-known", false, "lift the known-defect avoidance")
 	lift := flag.String("lift", "", "lift single avoidances: comma-separated list of "+strings.Join(pvpeg.AvoidNames(), ","))
 	out := flag.String("out", "/tmp/pvt.pvtool.out", "directory for failing inputs")
@@ -240,7 +240,11 @@ func evaluate(srv *pvpeg.Server, pigeon, dir string, seed int64, i int, av pvpeg
 		it.text = valid(r.Intn(3) > 0)
 		for k := 1 + r.Intn(3); k > 0; k-- {
 			var m string
-			it.text, m = pvpeg.Mutate(r, it.text, -1)
+			op := -1
+			if r.Intn(4) == 0 {
+				op = 10 // drop-closer: the "not terminated" diagnostics
+			}
+			it.text, m = pvpeg.Mutate(r, it.text, op)
 			it.muts = append(it.muts, m)
 		}
 	case x < 80:
